@@ -234,8 +234,8 @@ harnesses! {
     #[kani::unwind(44)]
     fn c10_sfo_lowered_chunk(nd) {
         probe::reset_flags();
-        let mut a = SincFixedOut::<f64>::new_with_interpolator(1.0, 2.0, SincInterpolationType::Linear, probe::boxed64(4, 2), 3, 1).unwrap();
-        let mut b = SincFixedOut::<f64>::new_with_interpolator(1.0, 2.0, SincInterpolationType::Linear, probe::boxed64(4, 2), 3, 1).unwrap();
+        let mut a = SincFixedOut::<f64>::new_with_interpolator(1.0, 2.0, SincInterpolationType::Linear, probe::boxed64_sum(4, 2), 3, 1).unwrap();
+        let mut b = SincFixedOut::<f64>::new_with_interpolator(1.0, 2.0, SincInterpolationType::Linear, probe::boxed64_sum(4, 2), 3, 1).unwrap();
         check!(a.set_chunk_size(1).is_ok(), "C03.ok[base]");
         dirty1!(nd, a, f64, 12, 3, 0.5, false, 1, false);
         a.reset();
@@ -245,8 +245,8 @@ harnesses! {
     #[kani::unwind(44)]
     fn c10_sfo_ramp_pending(nd) {
         probe::reset_flags();
-        let mut a = SincFixedOut::<f64>::new_with_interpolator(1.0, 2.0, SincInterpolationType::Nearest, probe::boxed64(4, 2), 3, 1).unwrap();
-        let mut b = SincFixedOut::<f64>::new_with_interpolator(1.0, 2.0, SincInterpolationType::Nearest, probe::boxed64(4, 2), 3, 1).unwrap();
+        let mut a = SincFixedOut::<f64>::new_with_interpolator(1.0, 2.0, SincInterpolationType::Nearest, probe::boxed64_sum(4, 2), 3, 1).unwrap();
+        let mut b = SincFixedOut::<f64>::new_with_interpolator(1.0, 2.0, SincInterpolationType::Nearest, probe::boxed64_sum(4, 2), 3, 1).unwrap();
         dirty1!(nd, a, f64, 12, 3, 1.5, true, 1, true);
         a.reset();
         same1!(nd, a, b, f64, 12, 3, 2);
@@ -255,19 +255,70 @@ harnesses! {
     #[kani::unwind(30)]
     fn c10_sfi_lowered_chunk(nd) {
         probe::reset_flags();
-        let mut a = SincFixedIn::<f64>::new_with_interpolator(1.0, 2.0, SincInterpolationType::Linear, probe::boxed64(4, 2), 8, 1).unwrap();
-        let mut b = SincFixedIn::<f64>::new_with_interpolator(1.0, 2.0, SincInterpolationType::Linear, probe::boxed64(4, 2), 8, 1).unwrap();
+        let mut a = SincFixedIn::<f64>::new_with_interpolator(1.0, 2.0, SincInterpolationType::Linear, probe::boxed64_sum(4, 2), 8, 1).unwrap();
+        let mut b = SincFixedIn::<f64>::new_with_interpolator(1.0, 2.0, SincInterpolationType::Linear, probe::boxed64_sum(4, 2), 8, 1).unwrap();
         check!(a.set_chunk_size(5).is_ok(), "C03.ok[base]");
         dirty1!(nd, a, f64, 8, 26, 0.5, false, 1, false);
         a.reset();
         same1!(nd, a, b, f64, 8, 26, 2);
         forget(a); forget(b);
     }
+    // full-size call with signal, smaller chunk + call, reset: nothing of the earlier, larger chunk may survive
+    #[kani::unwind(30)]
+    fn c10_sfi_full_then_lowered(nd) {
+        probe::reset_flags();
+        let mut a = SincFixedIn::<f64>::new_with_interpolator(1.0, 2.0, SincInterpolationType::Linear, probe::boxed64_sum(4, 2), 8, 1).unwrap();
+        let mut b = SincFixedIn::<f64>::new_with_interpolator(1.0, 2.0, SincInterpolationType::Linear, probe::boxed64_sum(4, 2), 8, 1).unwrap();
+        let x0 = [0.5f64; 8];
+        let mut y0 = [0.0f64; 26];
+        check!(a.process_into_buffer(&[&x0[..]], &mut [&mut y0[..]], None).is_ok(), "C03.ok[base]");
+        check!(a.set_chunk_size(3).is_ok(), "C03.ok[base]");
+        check!(a.process_into_buffer(&[&x0[..3]], &mut [&mut y0[..]], None).is_ok(), "C03.ok[base]");
+        a.reset();
+        same1!(nd, a, b, f64, 8, 26, 1);
+        forget(a); forget(b);
+    }
+    // two channels, the last call before the reset masks channel 1: reset must clear it all the same
+    #[kani::unwind(16)]
+    #[kani::stub(realfft::RealFftPlanner::<f64>::new, crate::stubs::planner_new)]
+    #[kani::stub(realfft::RealFftPlanner::<f64>::plan_fft_forward, crate::stubs::plan_fwd)]
+    #[kani::stub(realfft::RealFftPlanner::<f64>::plan_fft_inverse, crate::stubs::plan_inv)]
+    #[kani::stub(rubato::sinc::make_sincs, crate::stubs::make_sincs_unit)]
+    fn c10_fto_masked_then_reset(nd) {
+        let mut a = FftFixedOut::<f64>::new(2, 3, 3, 1, 2).unwrap();
+        let mut b = FftFixedOut::<f64>::new(2, 3, 3, 1, 2).unwrap();
+        let x0 = [0.5f64; 4];
+        let x1 = [0.25f64; 4];
+        let e: [f64; 0] = [];
+        let mut y0 = [0.0f64; 3];
+        let mut y1 = [0.0f64; 3];
+        let n = a.input_frames_next();
+        crate::fit!(nd, n <= 4, "C10.demand_fits_scenario_bound[base]");
+        check!(a.process_into_buffer(&[&x0[..n], &x1[..n]], &mut [&mut y0[..], &mut y1[..]], None).is_ok(), "C03.ok[base]");
+        let n = a.input_frames_next();
+        crate::fit!(nd, n <= 4, "C10.demand_fits_scenario_bound[base]");
+        check!(a.process_into_buffer(&[&x0[..n], &e[..]], &mut [&mut y0[..], &mut y1[..]], Some(&[true, false])).is_ok(), "C03.ok[base]");
+        a.reset();
+        let (na, nb) = (a.input_frames_next(), b.input_frames_next());
+        check!(na == nb, "C10.getter_input_frames_next[base]");
+        crate::fit!(nd, na <= 4 && nb <= 4, "C10.demand_fits_scenario_bound[base]");
+        let mut a0 = [SENT; 3];
+        let mut a1 = [SENT; 3];
+        let mut b0 = [SENT; 3];
+        let mut b1 = [SENT; 3];
+        let ra = a.process_into_buffer(&[&x0[..na], &x1[..na]], &mut [&mut a0[..], &mut a1[..]], None);
+        let rb = b.process_into_buffer(&[&x0[..nb], &x1[..nb]], &mut [&mut b0[..], &mut b1[..]], None);
+        check!(matches!((&ra, &rb), (Ok(p), Ok(q)) if p == q), "C10.counts[base]");
+        let mut same = true;
+        unroll32!(i, 3, { if a0[i].to_bits() != b0[i].to_bits() || a1[i].to_bits() != b1[i].to_bits() { same = false; } });
+        check!(same, "C10.outputs_bit_identical[base]");
+        forget(a); forget(b);
+    }
     #[kani::unwind(30)]
     fn c10_sfi_ramp_pending(nd) {
         probe::reset_flags();
-        let mut a = SincFixedIn::<f64>::new_with_interpolator(1.0, 2.0, SincInterpolationType::Nearest, probe::boxed64(4, 2), 8, 1).unwrap();
-        let mut b = SincFixedIn::<f64>::new_with_interpolator(1.0, 2.0, SincInterpolationType::Nearest, probe::boxed64(4, 2), 8, 1).unwrap();
+        let mut a = SincFixedIn::<f64>::new_with_interpolator(1.0, 2.0, SincInterpolationType::Nearest, probe::boxed64_sum(4, 2), 8, 1).unwrap();
+        let mut b = SincFixedIn::<f64>::new_with_interpolator(1.0, 2.0, SincInterpolationType::Nearest, probe::boxed64_sum(4, 2), 8, 1).unwrap();
         dirty1!(nd, a, f64, 8, 26, 2.0, true, 1, true);
         a.reset();
         same1!(nd, a, b, f64, 8, 26, 2);
@@ -428,8 +479,8 @@ harnesses! {
     #[kani::unwind(44)]
     fn c10_sfo_sym(nd) {
         probe::reset_flags();
-        let mut a = SincFixedOut::<f64>::new_with_interpolator(1.0, 2.0, SincInterpolationType::Linear, probe::boxed64(4, 2), 3, 2).unwrap();
-        let mut b = SincFixedOut::<f64>::new_with_interpolator(1.0, 2.0, SincInterpolationType::Linear, probe::boxed64(4, 2), 3, 2).unwrap();
+        let mut a = SincFixedOut::<f64>::new_with_interpolator(1.0, 2.0, SincInterpolationType::Linear, probe::boxed64_sum(4, 2), 3, 2).unwrap();
+        let mut b = SincFixedOut::<f64>::new_with_interpolator(1.0, 2.0, SincInterpolationType::Linear, probe::boxed64_sum(4, 2), 3, 2).unwrap();
         check!(a.set_chunk_size(1).is_ok(), "C03.ok[base]");
         dirty_async!(nd, a, f64, 12, 3, full);
         a.reset();
